@@ -23,6 +23,7 @@ type c16Case struct {
 	Lmtp     bool     `json:"lmtp"`
 	Reject   bool     `json:"reject"`
 	Part     string   `json:"partition"`
+	Prior    string   `json:"prior,omitempty"` // an earlier message on the same connection: "", "accepted", "refused"
 	concrete []byte
 }
 
@@ -76,6 +77,13 @@ func (c *c16Case) run(idx int, rng *rand.Rand) (string, error) {
 	}
 	srv.BE.Lock()
 	srv.BE.DataPlans = []rec.DataPlan{plan}
+	if c.Prior != "" {
+		pp := rec.DataPlan{}
+		if c.Prior == "refused" {
+			pp.Err = &smtp.SMTPError{Code: 554, EnhancedCode: smtp.EnhancedCode{5, 6, 0}, Message: "earlier message refused"}
+		}
+		srv.BE.DataPlans = []rec.DataPlan{pp, plan}
+	}
 	srv.BE.Unlock()
 	var cl *smtp.Client
 	if c.Lmtp {
@@ -89,6 +97,27 @@ func (c *c16Case) run(idx int, rng *rand.Rand) (string, error) {
 	to := []string{fmt.Sprintf("to%d@x.test", idx), "second@x.test"}
 	res := make(chan string, 1)
 	go func() {
+		if c.Prior != "" {
+			// an earlier message with its own envelope; the client goes straight on to the next one
+			if err := cl.Mail("earlier@x.test", nil); err != nil {
+				res <- "Mail (earlier message): " + err.Error()
+				return
+			}
+			if err := cl.Rcpt("bob@x.test", nil); err != nil {
+				res <- "Rcpt (earlier message): " + err.Error()
+				return
+			}
+			w, err := cl.Data()
+			if err != nil {
+				res <- "Data (earlier message): " + err.Error()
+				return
+			}
+			w.Write([]byte("earlier\r\n"))
+			if cerr := w.Close(); (cerr != nil) != (c.Prior == "refused") {
+				res <- fmt.Sprintf("Close of the earlier message (%s) returned %v", c.Prior, cerr)
+				return
+			}
+		}
 		if err := cl.Mail(from, nil); err != nil {
 			res <- "Mail: " + err.Error()
 			return
@@ -154,16 +183,23 @@ func (c *c16Case) run(idx int, rng *rand.Rand) (string, error) {
 	}
 	cn.WaitIdle()
 	calls := srv.BE.Calls()
-	var gotFrom string
-	var gotTo []string
+	// the envelope as a backend sees it that keeps sender and recipients until
+	// it is told the transaction is over (Reset / Logout), at the moment the
+	// last message is handed over
+	var gotFrom, curFrom string
+	var gotTo, curTo []string
 	var data []byte
 	ends := 0
 	for _, cl := range calls {
 		switch {
 		case cl.Name == "Mail":
-			gotFrom = cl.From
+			curFrom = cl.From
 		case cl.Name == "Rcpt":
-			gotTo = append(gotTo, cl.To)
+			curTo = append(curTo, cl.To)
+		case cl.Name == "Reset" || cl.Name == "Logout":
+			curFrom, curTo = "", nil
+		case cl.Phase == "begin":
+			gotFrom, gotTo = curFrom, append([]string{}, curTo...)
 		case cl.Phase == "end":
 			data = cl.Data
 			ends++
@@ -172,11 +208,15 @@ func (c *c16Case) run(idx int, rng *rand.Rand) (string, error) {
 			}
 		}
 	}
-	if ends != 1 {
+	wantEnds := 1
+	if c.Prior != "" {
+		wantEnds = 2
+	}
+	if ends != wantEnds {
 		return fmt.Sprintf("%d Data callbacks", ends), nil
 	}
 	if gotFrom != from || strings.Join(gotTo, ",") != strings.Join(to, ",") {
-		return fmt.Sprintf("envelope at the backend: from %q to %v, given %q %v", gotFrom, gotTo, from, to), nil
+		return fmt.Sprintf("envelope at the backend when the message is handed over: from %q to %v, given %q %v", gotFrom, gotTo, from, to), nil
 	}
 	c.Received = classesOf(data)
 	// the "other" octets must be the original ones, in order
@@ -229,7 +269,7 @@ func init() {
 		parts := []string{"whole", "split", "bytewise"}
 		var cases []*c16Case
 		for i, b := range bodies {
-			cases = append(cases, &c16Case{Body: b, Lmtp: i%4 == 1, Reject: i%3 == 1, Part: parts[i%3], concrete: c16Concrete(b, i)})
+			cases = append(cases, &c16Case{Body: b, Lmtp: i%4 == 1, Reject: i%3 == 1, Part: parts[i%3], Prior: []string{"", "", "accepted", "refused", "refused"}[i%5], concrete: c16Concrete(b, i)})
 			if len(b) <= 3 {
 				// short bodies: every combination
 				for _, lm := range []bool{false, true} {
